@@ -142,6 +142,10 @@ def rule_scan_agreement(ctx):
     r.floor(4)
 
 
+def rule_swap_first_on_line(ctx):
+    common_effects.swap_lines_rule(ctx)
+
+
 def rule_sort_whole_lines(ctx):
     db = ctx.db
     r = ctx.rule("sort-whole-lines", "sorting.cpp moves chunks only with Chunk::SwapLines; its deletions and those of "
@@ -206,4 +210,4 @@ def rule_sort_whole_lines(ctx):
     r.floor(6)
 
 
-RULES = [rule_effects, rule_pairing, rule_remove_precondition, rule_scan_agreement, rule_sort_whole_lines]
+RULES = [rule_effects, rule_pairing, rule_remove_precondition, rule_scan_agreement, rule_swap_first_on_line, rule_sort_whole_lines]
